@@ -250,3 +250,14 @@ Example literal_A4_followed :
   (v_option (told_run literal_A4) (bs "SILENCE"), v_option (told_run literal_A4) (bs "SILENCE=")) = (Some [], None) /\
   option_map (fun r => (v_option r (bs "SILENCE"), v_option r (bs "SILENCE="))) (run_abs literal_A4) = Some (Some [], None).
 Proof. vm_compute. repeat split; reflexivity. Qed.
+
+(* RPL_WHOREPLY "<hops> <realname>": realnames that begin with digits, are digits only or are
+   empty come through as sent; the one reading the implementation does not follow literally is
+   a realname that itself begins with a space (it trims all spaces after the hop count), which
+   `ok_hopreal` therefore excludes *)
+Example who_realnames :
+  List.map (fun x => (ok_hopreal (bs x), who_strip (bs x) 0, who_realname (bs x)))
+    ["0 42nd Street Bot"; "12 007"; "255 3 Musketeers fan"; "3 "; "0  x"] =
+  [(true, bs "42nd Street Bot", bs "42nd Street Bot"); (true, bs "007", bs "007");
+   (true, bs "3 Musketeers fan", bs "3 Musketeers fan"); (true, [], []); (false, bs "x", bs " x")].
+Proof. vm_compute. reflexivity. Qed.
